@@ -9,7 +9,7 @@
 import json, os, shutil, subprocess, sys, tempfile, time
 
 VERIF = os.path.dirname(os.path.dirname(os.path.abspath(__file__)))
-SIM = os.path.join(VERIF, "sim")
+SIM = os.environ.get("SEEDED_SIM", os.path.join(VERIF, "sim"))
 BIN = os.path.join(SIM, "target", "release", "mhsim")
 
 
